@@ -75,9 +75,39 @@ func c52Check(x *dbx) *vx.Fail {
 		return vx.Failf("histogram-buckets-gauge-mismatch/"+op, "after %s: native histogram buckets=%d, recount %d", x.lastOp, got, want.buckets)
 	}
 	if got := int(prom_testutil.ToFloat64(h.metrics.chunks)); got != want.chunks {
+		if got < want.chunks && c52MixedOOO(x) {
+			// Known-finding class: an out-of-order head chunk that holds float AND histogram samples is
+			// written as several m-mapped chunks (one per encoding) but was counted as one; removing
+			// them later subtracts more than was added.
+			return vx.Failf("chunks-gauge-undercount-after-mixed-ooo-chunk-mmapped", "after %s: head chunks gauge=%d, recount %d; a series holds (or held) out-of-order samples of both float and histogram type, whose one out-of-order head chunk is m-mapped as several chunks", x.lastOp, got, want.chunks)
+		}
 		return vx.Failf("chunks-gauge-mismatch/"+op, "after %s: head chunks gauge=%d, recount %d (m-mapped + head + out-of-order)", x.lastOp, got, want.chunks)
 	}
 	return nil
+}
+
+// c52MixedOOO: does any series of the model hold out-of-order-stored samples of both float and
+// histogram type?
+func c52MixedOOO(x *dbx) bool {
+	for _, ms := range x.m.series {
+		if ms == nil {
+			continue
+		}
+		f, h := false, false
+		for t := range ms.ooo {
+			for v := range ms.samples[t] {
+				if strings.HasPrefix(v, "f:") {
+					f = true
+				} else {
+					h = true
+				}
+			}
+		}
+		if f && h {
+			return true
+		}
+	}
+	return false
 }
 
 func c52New(r *vx.Run, c dbxCfg, name string) *dbx {
@@ -150,6 +180,19 @@ func TestVerifC52(t *testing.T) {
 	plans := vx.Pick(r,
 		[]plan{{"base", "medium", 2}, {"ooo", "medium", 2}, {"ooo", "small", 3}},
 		[]plan{{"ooo", "medium", 3}, {"base", "medium", 3}, {"ooo+snap", "medium", 3}, {"snap", "small", 4}, {"ooo", "small", 4}, {"oooneg", "small", 4}, {"ooo", "small", 5}})
+	// FIRST: search from non-initial states (m-mapped out-of-order chunks, pending head chunks, blocks,
+	// tombstones ... — structures the counters have to survive a restart with)
+	for _, cn := range vx.Pick(r, []string{"ooo"}, []string{"ooo", "base", "ooo+snap"}) {
+		if r.Expired() {
+			r.NotExhaustive("deadline before the non-initial-state search of " + cn)
+			break
+		}
+		c := cfgs[cn]
+		c.Alphabet = "small"
+		name := cn + "@small+starts"
+		res := r.BFSFrom(name, func() vx.Sys { return c52New(r, c, name) }, dbxStarts(c.W), vx.Pick(r, 1, 2))
+		t.Logf("C52 %s: states=%d transitions=%d", name, res.States, res.Transitions)
+	}
 	for _, p := range plans {
 		if r.Expired() {
 			r.NotExhaustive("deadline before plan " + p.cfg + "@" + p.alpha)
